@@ -14,8 +14,11 @@
 //! access the `RouterProxy` methods (via `ROUTER`'s `Deref` for `RouterProxy`.
 use lazy_static::lazy_static;
 use std::collections::HashMap;
+#[cfg(not(feature = "verif-hooks"))]
 use std::sync::Mutex;
 use std::thread;
+#[cfg(feature = "verif-hooks")]
+use crate::verif_mutex::Mutex;
 
 use crate::ipc::OpaqueIpcReceiver;
 use crate::ipc::{
